@@ -15,10 +15,13 @@ import (
 //
 // Script (one in-process HttpServer per case, scripted stream methods "ex" and "pr"):
 //
-//	cfg cache=<0|1> maxresp=<n> limit=<n>         first line; server configuration
-//	init <inst> <ex|pr> <absent|ok|err|panic> <prog>
-//	                                              POST /<m>/init with a scripted state (c16_script.go)
-//	x <inst> <ex|pr> <ok|cast|bad|empty> <c…vals> <khex>=<val> …
+//	cfg cache=<0|1> maxresp=<n> limit=<n> hdr=<0|1>   first line; hdr=1 registers the static methods
+//	                                              with a header type (ExchangeWithHeader/ProducerWithHeader)
+//	init <inst> <ex|pr|dx|dp> <absent|ok|err|panic> <prog> [h<n>]
+//	                                              POST /<m>/init with a scripted state (c16_script.go);
+//	                                              dx/dp = the dynamic method "dyn" returning an exchange /
+//	                                              producer state; h<n> = StreamResult.Header value
+//	x <inst> <ex|pr|dyn> <ok|cast|bad|empty> <c…vals> <khex>=<val> …
 //	                                              POST /<m>/exchange; val = x<hex> | T<i> | C<c>
 //	                                              (T<i> = i-th cursor seen in this case, C<c> = call token)
 //	strip <khex>=x<hex> …                         stripFrameworkTickMetadata directly
@@ -78,7 +81,7 @@ func c16Exec(c *Case) {
 			c.Out(l, "ok")
 		case "init":
 			ensure()
-			if len(f) != 5 || (f[2] != "ex" && f[2] != "pr") {
+			if (len(f) != 5 && len(f) != 6) || (f[2] != "ex" && f[2] != "pr" && f[2] != "dx" && f[2] != "dp") {
 				c.Out(l, "err:bad-line")
 				continue
 			}
@@ -87,11 +90,31 @@ func c16Exec(c *Case) {
 				c.Out(l, "err:bad-line")
 				continue
 			}
-			res := e.post(inst, "/"+f[2]+"/init", e.initBody(f[2], f[3], f[4]), nil)
+			hdr := int64(0)
+			if len(f) == 6 {
+				n, err := strconv.ParseInt(strings.TrimPrefix(f[5], "h"), 10, 64)
+				if err != nil || n <= 0 || !strings.HasPrefix(f[5], "h") {
+					c.Out(l, "err:bad-line")
+					continue
+				}
+				hdr = n
+			}
+			method, kind := f[2], ""
+			switch f[2] {
+			case "dx":
+				method, kind = "dyn", "ex"
+			case "dp":
+				method, kind = "dyn", "pr"
+			}
+			res := e.post(inst, "/"+method+"/init", e.initBodyFull(method, kind, hdr, f[3], f[4]), nil)
 			out := e.renderResp(res)
 			calls := e.rec.take()
 			c.Stat("init-" + f[2])
 			c.Out(l, out+" | "+e.renderEvents(calls, false))
+			if res.aborted != "" {
+				c.Oracle("init-aborted-connection", fmt.Sprintf("%q: the handler panicked (%s): the client gets no complete response", l, res.aborted))
+				continue
+			}
 			c16InitOracle(c, e, l, f[2], res, calls)
 		case "x":
 			ensure()
@@ -103,7 +126,7 @@ func c16Exec(c *Case) {
 			route := f[2]
 			vals, okv := parseVals(f[4])
 			keys, values, syms, okm := e.parseMetaWords(f[5:])
-			if (route != "ex" && route != "pr") || !okv || !okm {
+			if (route != "ex" && route != "pr" && route != "dyn") || !okv || !okm {
 				c.Out(l, "err:bad-line")
 				continue
 			}
@@ -181,7 +204,7 @@ func firstValue(keys, values []string, key string) (string, bool) {
 }
 
 func c16InitOracle(c *Case, e *streamEnv, l, kind string, res *httpResult, calls []*scriptCall) {
-	if kind != "ex" {
+	if kind != "ex" && kind != "dx" {
 		return
 	}
 	// an exchange init runs no turn and hands out exactly one cursor + the call token
@@ -207,6 +230,14 @@ func c16InitOracle(c *Case, e *streamEnv, l, kind string, res *httpResult, calls
 func c16TurnOracle(c *Case, e *streamEnv, l, route, schema string, keys, values, syms []string,
 	res *httpResult, calls []*scriptCall, tokensBefore int) {
 	_, cancelled := firstValue(keys, values, vgirpc.MetaCancel)
+	if res.aborted != "" {
+		cls := "continuation-aborted-connection"
+		if cancelled {
+			cls = "cancel-aborted-connection"
+		}
+		c.Oracle(cls, fmt.Sprintf("%q: the handler panicked (%s): the client gets an aborted connection, not a complete response", l, res.aborted))
+		return
+	}
 	var cur *tokInfo
 	curIdx := -1
 	if tv, ok := firstValue(keys, values, vgirpc.MetaStreamState); ok {
@@ -349,11 +380,11 @@ func c16TurnOracle(c *Case, e *streamEnv, l, route, schema string, keys, values,
 		if !hasExc {
 			c.Oracle("failed-turn-no-error", fmt.Sprintf("%q: failing response carries no exception batch", l))
 		}
-		if route == "ex" && res.parseOK && len(res.batches) != 1 {
+		if !cur.producer && res.parseOK && len(res.batches) != 1 {
 			c.Oracle("failed-turn-not-single-error", fmt.Sprintf("%q: failed exchange answered with %d batches", l, len(res.batches)))
 		}
 	}
-	if route != "ex" || cur.producer {
+	if route == "pr" || cur.producer {
 		return
 	}
 
